@@ -316,7 +316,10 @@ c.raises("ensure/a-failed-spawn-leaks-nothing-and-unblocks-signals", "BaseExcept
          post="ite(log_count('raise:spawnv_passfds') >= 1, not G.sig_blocked, G.sig_blocked == old(G.sig_blocked)) and "
               "forall(Int, lambda fd: implies(G.fd_open[fd], old(G.fd_open[fd]))) and log_tags()[-1] == 'release' and "
               "implies(G.tracker_stable, forall(Int, lambda fd: implies(old(G.fd_open[fd]), G.fd_open[fd]))) and "
-              "implies(G.tracker_stable and not is_none(old(self._fd)), self._fd == old(self._fd))", prop=["C12", "C20"])
+              "implies(G.tracker_stable and not is_none(old(self._fd)), self._fd == old(self._fd)) and "
+              "implies(not is_none(self._fd), G.fd_open[the(self._fd)] and not is_none(self._pid))", prop=["C12", "C20"])
+REP = "implies(not is_none(self._fd), G.fd_open[the(self._fd)] and not is_none(self._pid))"
+c.ensures("ensure/recorded-descriptor-is-open-on-return", REP, prop=["C12", "C20"])   # on exceptional exits: last conjunct of the raises clause below
 c.modifies("self._fd", "self._pid", "G.fd_open", "G.sig_blocked", "G.tracker_spawns", "G.pid_live", "G.joined")
 c.assumes("A-warn", "A-kernel")
 c.cover("relaunch", "not is_none(old(self._fd)) and log_count('probe') == 1 and not log_arg('probe', 0, 1)")
